@@ -607,6 +607,7 @@ package app
 //@   requires maps: p.processLogs != nil && p.processStates != nil && p.project.Processes != nil
 //@   requires keyed: runnerKeyed(p)
 //@   requires logs-nonnil: forall k string :: k in p.processLogs ==> p.processLogs[k] != nil
+//@   requires registered-exist: forall k string :: k in p.runningProcesses ==> allocated(p.runningProcesses[k])
 //@   requires target-free: !(newName in p.runningProcesses)
 //@   requires confs-unshared: forall a string, b string :: a in p.runningProcesses && b in p.runningProcesses && a != b ==> p.runningProcesses[a].procConf != p.runningProcesses[b].procConf
 //@   after (*app.ProjectRunner).addRunningProcess assert re-registered: noLocks() && runnerWF(p)
